@@ -436,6 +436,9 @@ func checkPointSet(r *ev.Run, set []int, queries []c3) {
 	if tree.Empty() != (len(pts) == 0) {
 		viol("Empty", "Empty() wrong")
 	}
+	if tree.Leaf() != (len(pts) <= 1) {
+		viol("Leaf", fmt.Sprintf("Leaf()=%v for %d points (documented: true iff the tree contains one point or none)", tree.Leaf(), len(pts)))
+	}
 	for _, q := range queries {
 		r.Eval(1)
 		want := false
@@ -526,6 +529,9 @@ func checkPointSet2(r *ev.Run, set []int) {
 	}
 	if sl := tree.Slice(); len(sl) != len(pts) {
 		viol("Slice", "Slice() has the wrong length")
+	}
+	if tree.Empty() != (len(pts) == 0) || tree.Leaf() != (len(pts) <= 1) {
+		viol("Leaf", fmt.Sprintf("Empty()=%v Leaf()=%v for %d points", tree.Empty(), tree.Leaf(), len(pts)))
 	}
 	for x := -0.5; x <= 2.5; x += 0.125 {
 		for y := -0.5; y <= 2.5; y += 0.125 {
